@@ -194,6 +194,11 @@ let pad = ["p" .. spin, "q" .. spin]
 println(got.read())
 println(got.read())
 """, "a1\nb2\n"),
+    # several handles on one queue (captures, a channel received through a channel): what one handle has
+    # not yet returned to the program is still there for the others
+    "handover-reader-handed-to-later-task": ('let records: channel<int> = channel()\nlet report: channel<int> = channel()\ntask {\n  var i = 0\n  while i < 400 {\n    records.write(i)\n    i = i + 1\n  }\n}\nfor k in 5 {\n  println("header " .. records.read())\n}\ntask {\n  var sum = 0\n  for k in 10 {\n    sum = sum + records.read()\n  }\n  report.write(sum)\n}\nprintln("sum of the next ten: " .. report.read())\n', 'header 0\nheader 1\nheader 2\nheader 3\nheader 4\nsum of the next ten: 95\n'),
+    "handover-reader-alternates-between-two-handles": ('let data: channel<int> = channel()\nlet turn_a: channel<int> = channel()\nlet turn_b: channel<int> = channel()\nlet out: channel<string> = channel()\ntask {\n  for i in 60 { data.write(i * 3) }\n}\ntask {\n  for r in 6 {\n    let go = turn_a.read()\n    var s = "a" .. r\n    for k in 3 { s = s .. ":" .. data.read() }\n    out.write(s)\n    turn_b.write(1)\n  }\n}\ntask {\n  for r in 6 {\n    let go = turn_b.read()\n    var s = "b" .. r\n    for k in 2 { s = s .. ":" .. data.read() }\n    out.write(s)\n    turn_a.write(1)\n  }\n}\nturn_a.write(1)\nfor r in 12 { println(out.read()) }\n', 'a0:0:3:6\nb0:9:12\na1:15:18:21\nb1:24:27\na2:30:33:36\nb2:39:42\na3:45:48:51\nb3:54:57\na4:60:63:66\nb4:69:72\na5:75:78:81\nb5:84:87\n'),
+    "handover-channel-received-through-a-channel-then-read-by-both": ('let data: channel<int> = channel()\nlet pass: channel<channel<int>> = channel()\nlet report: channel<int> = channel()\ntask {\n  for i in 80 { data.write(i + 100) }\n}\nprintln(data.read())\nprintln(data.read())\npass.write(data)\ntask {\n  let mine = pass.read()\n  var sum = 0\n  for k in 7 { sum = sum + mine.read() }\n  report.write(sum)\n}\nprintln("task read " .. report.read())\nprintln(data.read())\n', '100\n101\ntask read 735\n109\n'),
 }
 
 
